@@ -341,7 +341,7 @@ def run_unit(unit):
 def replay(desc):
     progs.worker_setup()
     if "text" in desc:
-        return run_seeds([desc["text"]], "thorough" if desc["text"].startswith("example:") else "quick", only=desc)["viol"]
+        return run_seeds([desc["text"]], "thorough", only=desc)["viol"]
     if "schedule" in desc:
         r, final, ex = execute(desc["tree"], desc["schedule"], desc["W"], tuple(desc["assignment"]), desc["max_passes"])
         rr, rfinal, _ = execute(desc["tree"], [], 1, (0,) * len(TREES[desc["tree"]]), desc["max_passes"])
